@@ -163,6 +163,9 @@ func runTermScenario(s termScenario, callers []string) termResult {
 	case "in-writer":
 		strikeGate = newGate(false)
 		out.gate = strikeGate
+	case "startup-write":
+		strikeGate = newGate(true) // the first write: Run's start-up mode sequences, before the renderer is started
+		out.gate = strikeGate
 	}
 	if strikeGate != nil {
 		cleanup = append(cleanup, strikeGate.open)
@@ -225,9 +228,9 @@ func runTermScenario(s termScenario, callers []string) termResult {
 		go func() { defer close(ch); run.p.Send(m) }()
 		return ch
 	}
-	if s.Strike == "first-view" {
+	if s.Strike == "first-view" || s.Strike == "startup-write" {
 		if !strikeGate.waitArrived(3 * time.Second) {
-			res.note = "the first View was never called"
+			res.note = "the strike point (" + s.Strike + ") was never reached"
 			return res
 		}
 	} else if s.Strike == "pre-cancel" {
@@ -447,7 +450,7 @@ func termMatrix(thorough bool, r *rng) []termScenario {
 	}
 	// termination before the event loop runs, with and without an Init command waiting to be handed over
 	for _, c := range []string{"kill", "ctx"} {
-		for _, st := range []string{"in-init", "first-view", "pre-cancel"} {
+		for _, st := range []string{"in-init", "first-view", "pre-cancel", "startup-write"} {
 			for _, p := range []string{"none", "initcmd"} {
 				for _, in := range []string{"nil", "pipe"} {
 					if st == "pre-cancel" && c != "ctx" {
@@ -498,7 +501,7 @@ func (s termScenario) valid() bool {
 	if s.Cause == "panic-init" && (s.Strike != "idle" || s.Pending != "none") {
 		return false
 	}
-	if (s.Strike == "first-view" || s.Strike == "pre-cancel" || s.Pending == "initcmd") && s.Cause != "kill" && s.Cause != "ctx" {
+	if (s.Strike == "first-view" || s.Strike == "startup-write" || s.Strike == "pre-cancel" || s.Pending == "initcmd") && s.Cause != "kill" && s.Cause != "ctx" {
 		return false
 	}
 	if s.Strike == "in-init" && (s.Cause == "quitmsg" || s.Cause == "quitapi" || s.Cause == "interrupt" ||
@@ -538,6 +541,9 @@ func scenTerm(out *scenOut, r *rng, thorough bool) {
 	wg.Wait()
 	for _, exit := range []string{"quit-msg", "quit-call", "interrupt-msg", "user-then-quit"} {
 		execReleaseFails(out, exit)
+	}
+	for _, n := range []int{1, 2} {
+		readErrAfterExec(out, n)
 	}
 	for _, cause := range []string{"ctx", "quit-call", "kill"} {
 		termDuringStartup(out, cause, false)
